@@ -2233,6 +2233,19 @@ def _c09_one(seed):
         naive = datetime.datetime(d.year, d.month, d.day, rng.randint(0, 23), 15)
         checks.append((lambda fn=fn: fn(o, naive, tz), lambda fn=fn: fn(o, d, tz),
                        fn.__name__ + " naive datetime as date", tz))
+    # a datetime as the date: its own calendar date, in its own zone — also at the hours where
+    # that date differs from the UTC date
+    for hh in (0, 23, rng.randint(1, 22)):
+        aw = datetime.datetime(d.year, d.month, d.day, hh, rng.choice([5, 55]), tzinfo=tz)
+        nv = aw.replace(tzinfo=None)
+        for fn, extra in ((sun.dawn, (6,)), (sun.dusk, (6,)), (sun.dawn, (Depression.NAUTICAL,)),
+                          (sun.sunrise, ()), (sun.sunset, ())):
+            checks.append((lambda fn=fn, extra=extra, aw=aw: fn(o, aw, *extra, datetime.timezone.utc),
+                           lambda fn=fn, extra=extra: fn(o, d, *extra, tz),
+                           "%s with the aware datetime %s as date" % (fn.__name__, aw.isoformat()), tz))
+            checks.append((lambda fn=fn, extra=extra, nv=nv: fn(o, nv, *extra, tz),
+                           lambda fn=fn, extra=extra: fn(o, d, *extra, tz),
+                           "%s with the naive datetime %s as date" % (fn.__name__, nv.isoformat()), tz))
     for m in (moon.moonrise, moon.moonset):
         checks.append((lambda m=m: m(o, d, name), lambda m=m: m(o, d, tz), m.__name__ + " name vs object", tz))
     e = rng.uniform(95, 170)
@@ -2279,6 +2292,19 @@ def _c09_one(seed):
             if got != ("ok", want_lat):
                 return "latitude given as the numeric string %r becomes %r, as the float %r it is %r" % (
                     sp, got, want, want_lat)
+    # degree-minute-second text with either kind of mark denotes deg + min/60 + sec/3600, signed
+    for _ in range(6):
+        dg, mi, se = rng.randint(0, 89), rng.randint(0, 59), rng.randint(0, 59)
+        hemi = rng.choice("NSns")
+        want = (dg + mi / 60.0 + se / 3600.0) * (-1 if hemi in "Ss" else 1)
+        for pm, ps in (("'", '"'), ("\u2032", "\u2033"), ("\u2032", '"'), ("'", "\u2033")):
+            for txt, w in (("%d\u00b0%d%s%d%s%s" % (dg, mi, pm, se, ps, hemi), want),
+                           ("%d\u00b0%d%s%s" % (dg, mi, pm, hemi), (dg + mi / 60.0) * (-1 if hemi in "Ss" else 1)),
+                           ("%d\u00b0%d%s%s" % (dg, se, ps, hemi), (dg + se / 3600.0) * (-1 if hemi in "Ss" else 1))):
+                got = _try(lambda: Observer(txt, 0.0).latitude)
+                if got[0] != "ok" or abs(got[1] - w) > 1e-9:
+                    return "latitude given as %r becomes %r; degrees + minutes/60 + seconds/3600 is %r" % (
+                        txt, got, w)
     lat_s, lon_s = "51°30'N", "0°7'30\"W"
     o1, o2, o3 = Observer(lat_s, lon_s), Observer(51.5, -0.125), Observer("51.5", "-0.125")
     if not (o1 == o2 == o3):
